@@ -8,7 +8,7 @@ import z3
 from pyvc.prop import Unit
 from pyvc.values import strval, SV, STR, OSTR, INT, BOOL, TSeq, TOpt, Ty, term, is_sym, fresh, fresh_term, S_at
 from pyvc import models as M, fsys as FS
-from pyvc.execu import HObj, PyRaise, LoopSpec, field_slot, local_slot, yield_slot, seq_of_items, Slot
+from pyvc.execu import assigned_from, HObj, PyRaise, LoopSpec, field_slot, local_slot, yield_slot, seq_of_items, Slot
 
 LEVEL = "proof"
 TRUSTED = [
@@ -335,12 +335,12 @@ class FindPaths(Unit):
             return pack_unfold(nat, pdir.t, L, i)
 
         def inner_inv(ex_, fr, j, vals):
-            L2 = FS.listing(term(fr.locals["simfile_path"], STR))
+            L2 = FS.listing(term(fr.locals[assigned_from(fr.fi, "join", 0)], STR))
             y0 = fr.loop_entry[(self.LQ, 1)]["yielded"].t
             return [("no-simfile-so-far", z3.Not(ANY()(L2, j))), ("nothing-yielded-yet", vals["yielded"].t == y0)]
 
         def inner_using(ex_, fr, j, vals):
-            L2 = FS.listing(term(fr.locals["simfile_path"], STR))
+            L2 = FS.listing(term(fr.locals[assigned_from(fr.fi, "join", 0)], STR))
             return any_unfold(L2, j)
 
         ex.loop_specs[(self.LQ, 0)] = LoopSpec([yield_slot(STR)], outer_inv, outer_using)
@@ -540,6 +540,8 @@ def witness_search(tier, seed):
         open(os.path.join(pack, "song1", "a.sm.old"), "w").write("x")
         open(os.path.join(pack, "song2", "nested", "deep.ssc"), "w").write("#VERSION:1;")
         open(os.path.join(pack, "empty", "readme.ssca"), "w").write("x")
+        for dotless in ("sm", "SSC", "Sm"):          # a name that IS an extension without its dot has no extension
+            open(os.path.join(pack, "empty", dotless), "w").write("#TITLE:junk;")
         try:
             sp = SimfilePack(pack)
         except Exception as e:
@@ -569,6 +571,16 @@ def witness_search(tier, seed):
         mp = SimfilePack("p", filesystem=mem)
         if list(mp.simfile_dir_paths) != ["p/s"] or [s_.title for s_ in mp.simfiles()] != ["m"]:
             return dict(input="in-memory pack p/s/y.Sm + p/file.ssc", detail=f"lists {mp.simfile_dir_paths}")
+        mem3 = MemoryFS()
+        mem3.makedirs("d")
+        for nm in ("sm", "ssc", "x.sm"):
+            mem3.writetext("d/" + nm, "#TITLE:x;")
+        try:
+            sd3 = SimfileDirectory("d", filesystem=mem3)
+            if sd3.sm_path != "d/x.sm" or sd3.ssc_path is not None:
+                return dict(input="in-memory directory with the files 'sm', 'ssc', 'x.sm'", detail=f"sm_path={sd3.sm_path} ssc_path={sd3.ssc_path}")
+        except DuplicateSimfileError as e:
+            return dict(input="in-memory directory with the files 'sm', 'ssc', 'x.sm'", detail=f"DuplicateSimfileError: {e} - a dotless name is not a simfile")
         for order in (["a.sm", "b.ssc", "c.SSC"], ["a.ssc", "b.sm", "c.SM"]):
             mem2 = MemoryFS()
             mem2.makedirs("d")
